@@ -302,6 +302,19 @@ def check_stale_detector(ctx, cls):
                 ctx.violation(rule, f"{cls.name}|fitted-attr-outside-fit:{a}", f.loc(n), f"fitted attribute {a} is written outside the fit/update path (in {f.name})", found=norm_src(n))
 
 
+def shared_no_stale(ctx, rule, pkg_names):
+    """Re-run NO-STALE-READ for the named detectors under another property's rule id: the scores that property talks about
+    (transform_scores) must be computed from the current input on every path, not read from an earlier call."""
+    before = len(ctx.obs)
+    for pkg, name in pkg_names:
+        cls = ctx.P.public_class(pkg, name)
+        ctx.guard(rule, name, lambda cls=cls: check_stale_detector(ctx, cls), cls.module.relpath)
+    for o in ctx.obs[before:]:
+        if o.rule == "C10.c NO-STALE-READ":
+            o.rule = f"{rule} (C10.c NO-STALE-READ)"
+    return len(ctx.obs) - before
+
+
 def check_stale_scorer(ctx, cls):
     rule = "C10.c NO-STALE-READ"
     init, params = init_params(ctx, cls)
